@@ -116,10 +116,12 @@ pub fn run_worker(check: &dyn Check, tier: Tier, master: u64, slice: Slice, limi
     }
     let n = limit.unwrap_or_else(|| check.n_cases(tier)).min(check.n_cases(tier));
     let mut stats = Stats::default();
+    let timing = std::env::var_os("NSIM_TIMING");
     let mut idx = slice.index;
     while idx < n {
         if idx >= slice.from {
             raw_line(&format!("S {idx}"));
+            let t0 = std::time::Instant::now();
             let plan = check.plan(master, idx, tier);
             let findings = {
                 let mut ctx = RunCtx::new(&mut stats);
@@ -139,6 +141,13 @@ pub fn run_worker(check: &dyn Check, tier: Tier, master: u64, slice: Slice, limi
                     }
                 }
             };
+            if let Some(path) = &timing {
+                // development aid only (never read back): per-case wall time appended to a file
+                use std::io::Write as _;
+                if let Ok(mut f) = std::fs::OpenOptions::new().create(true).append(true).open(path) {
+                    let _ = writeln!(f, "T {idx} {}", t0.elapsed().as_millis());
+                }
+            }
             for f in findings {
                 raw_line(&format!(
                     "V {}",
